@@ -319,14 +319,23 @@ pub fn gen_start(r: &mut Rng) -> Start {
             }
         }
     }
+    let mut shared_arrays: Vec<(Id, Vec<Vec<u8>>)> = vec![];
     for pid in &order {
         let parent = page_list.iter().find(|x| x.0 == *pid).unwrap().1;
         let mut e = vec![(k("Type"), name("Page")), (k("Parent"), rref(parent))];
         // contents
-        let nstreams = match r.below(5) {
-            0 => 0,
-            1 | 2 => 1,
-            _ => 1 + r.usize_below(3),
+        // a Contents array that is an object of its own may be shared by several pages (only arrays of two or more
+        // streams are shared: for those every content edit gives the edited page something of its own, so the
+        // expectation for the other pages does not depend on whether an edit works in place)
+        let reuse = if !shared_arrays.is_empty() && r.chance(1, 4) { Some(r.pick(&shared_arrays).clone()) } else { None };
+        let nstreams = if reuse.is_some() {
+            0
+        } else {
+            match r.below(5) {
+                0 => 0,
+                1 | 2 => 1,
+                _ => 1 + r.usize_below(3),
+            }
         };
         let mut chunks = vec![];
         let mut ids = vec![];
@@ -355,7 +364,12 @@ pub fn gen_start(r: &mut Rng) -> Start {
             chunks.push(plain);
             ids.push(sid);
         }
+        if let Some((aid, shared_chunks)) = &reuse {
+            e.push((k("Contents"), rref(*aid)));
+            chunks = shared_chunks.clone();
+        }
         match (nstreams, r.below(3)) {
+            _ if reuse.is_some() => {}
             (0, 0) => {}
             (0, _) => e.push((k("Contents"), RObj::Array(vec![]))),
             (1, 0) => e.push((k("Contents"), rref(ids[0]))),
@@ -363,6 +377,9 @@ pub fn gen_start(r: &mut Rng) -> Start {
                 let aid = fresh(r);
                 d.objects.insert(aid, RObj::Array(ids.iter().map(|x| rref(*x)).collect()));
                 e.push((k("Contents"), rref(aid)));
+                if ids.len() >= 2 {
+                    shared_arrays.push((aid, chunks.clone()));
+                }
             }
             _ => e.push((k("Contents"), RObj::Array(ids.iter().map(|x| rref(*x)).collect()))),
         }
@@ -816,6 +833,33 @@ pub fn step(st: &mut State, r: &mut Rng) -> Viol {
                     if dict_of(&s0, page).and_then(|e| RObj::dict_get(e, b"Contents")).is_some() && !(model_content_ids(&s0, page).is_empty() && matches!(dict_of(&s0, page).and_then(|e| RObj::dict_get(e, b"Contents")), Some(RObj::Array(a)) if a.is_empty()) && false) {
                         st.content[pi] = vec![bytes.clone()];
                     }
+                    // a page with a single content stream is edited in place; when other pages list the same stream
+                    // object (sharing arises when a deletion shrinks a shared array to one stream) they either keep
+                    // seeing the old content or see the new one - the property does not say which, so the model
+                    // adopts what the library did for exactly that chunk
+                    let mine = model_content_ids(&s0, page);
+                    if mine.len() == 1 {
+                        for (qi, q) in pages0.iter().enumerate() {
+                            if qi == pi {
+                                continue;
+                            }
+                            let theirs = model_content_ids(&s0, *q);
+                            if theirs.len() != st.content[qi].len() {
+                                continue;
+                            }
+                            let mut alt = st.content[qi].clone();
+                            let mut touched = false;
+                            for (ci, cid) in theirs.iter().enumerate() {
+                                if *cid == mine[0] {
+                                    alt[ci] = bytes.clone();
+                                    touched = true;
+                                }
+                            }
+                            if touched && st.doc.get_page_content(*q).ok() == Some(alt.concat()) {
+                                st.content[qi] = alt;
+                            }
+                        }
+                    }
                 }
             } else if op == 11 {
                 label = "add_page_contents".into();
@@ -1116,7 +1160,7 @@ pub fn run(cfg: &RunCfg) -> (PropMeta, ShardOut, Map<String, Value>) {
     });
     let meta = PropMeta {
         level: "exploration",
-        rule: "random programs (1..40 steps) over new_object_id, add_object, set_object, delete_object, remove_object(annotation), prune_objects, delete_pages, renumber_objects(_with), compress, decompress, change_page_content, add_page_contents, add_to_page_content, add_xobject, add_graphics_state, get_or_create_resources, add_bookmark+build_outline, save+reload, on generated documents (1..6 pages in one or two tree levels; Contents as stream ref / array / reference to array / absent, content streams plain, Flate-coded or Flate-coded with a PNG predictor; Resources own, by reference, or inherited; annotations incl. duplicates; shared, cyclic and unreachable extras), one third of them written by the reference writer and loaded first. After every step: per-operation write set against a snapshot taken before the call, fresh ids, no reference to a deleted object left, exact prune set, Count invariant, page list and page content vs the position-keyed edit model, resources in effect never shrink. distinct = programs + distinct (op,op) successions observed.".into(),
+        rule: "random programs (1..40 steps) over new_object_id, add_object, set_object, delete_object, remove_object(annotation), prune_objects, delete_pages, renumber_objects(_with), compress, decompress, change_page_content, add_page_contents, add_to_page_content, add_xobject, add_graphics_state, get_or_create_resources, add_bookmark+build_outline, save+reload, on generated documents (1..6 pages in one or two tree levels; Contents as stream ref / array / reference to array (now and then shared by several pages) / absent, content streams plain, Flate-coded or Flate-coded with a PNG predictor; Resources own, by reference, or inherited; annotations incl. duplicates; shared, cyclic and unreachable extras), one third of them written by the reference writer and loaded first. After every step: per-operation write set against a snapshot taken before the call, fresh ids, no reference to a deleted object left, exact prune set, Count invariant, page list and page content vs the position-keyed edit model, resources in effect never shrink. distinct = programs + distinct (op,op) successions observed.".into(),
         assumptions: vec![
             "delete_object / set_object are aimed at objects that are not page-tree nodes (deleting a page is delete_pages' job)".into(),
             "renumbering steps are judged by C10's oracle; dangling references that start to resolve are C10's known finding and not double-reported here".into(),
